@@ -116,6 +116,12 @@ def make_udt(project, r, name, template_id, handle, feat, depth):
         elif c2 < 0.09 and feat.get("unnamed_members", True):
             mname = ""              # unnamed internal member (seen in add-on instruction templates)
             hidden = True
+        elif c2 < 0.13 and not ({"ctl", "control"} & used):
+            # the names of the control words of the built-in types (TIMER.CTL, ...): internal in a template of the
+            # predefined range, an ordinary visible member in a user-defined type
+            mname = r.choice(("CTL", "Control"))
+            used.add(mname.lower())
+            hidden = template_id < 0x100 or template_id > 0xEFF
         members.append({"name": mname, "type": t, "array": arr, "offset": off, "bit": None, "hidden": hidden})
         off += type_size(project, t) * (arr or 1)
         if r.random() < 0.08 and feat.get("gaps", False):
